@@ -13,6 +13,11 @@ def cfgs(tier):
         # non-dyadic float values of very different magnitude; at publication times the published value must come back bit-identical
         out.append(dict(consumers=[[a]], window=2 if q else 3, lattice=0.5, float_values=True, exact_at_publications=True))
         out.append(dict(consumers=[[a]], window=2 if q else 3, lattice=0.25, beyond=0.25, payload="grid"))
+    # the same lattice at other time scales (one unit = 2 microseconds / one week) and with masked payloads
+    for a in ads:
+        for unit in (2, 7 * 86400 * 10**6):
+            out.append(dict(consumers=[[a]], window=2, lattice=0.5, unit_us=unit))
+        out.append(dict(consumers=[[a]], window=2, lattice=0.5, payload="masked"))
     # two independent consumers behind two adapters of one output (eviction in one must not disturb the other), and adapter behind adapter
     for a, b in ((["L"], ["N"]), (["T", 0.5], ["V"]), (["L"], ["L"])):
         out.append(dict(consumers=[[a], [b]], window=1.5 if q else 2.5, lattice=0.5))
